@@ -19,7 +19,9 @@ RULE = ("geometries in general position (harness-side guard: no distance within 
         "reversal above) x rigid-motion grid (24 cube rotations o seed-derived generic rotation + translation) x {proper, three "
         "reflections} x noise {0, 0.02, 0.05 A}; reaction triples with reactant / product / TS moved independently.  Differential "
         "oracle: graph(pi.R.x) renamed by pi^-1 has the same bonds and spatially identical descriptors (mirror descriptors under a "
-        "reflection); every descriptor names the centre and exactly its bonded neighbours.  distinct = perceptions compared")
+        "reflection); every descriptor names the centre and exactly its bonded neighbours; 288 atoms (48 haloethenes) under six "
+        "reorderings; a caller-supplied switching function (C-Cl cut-off raised, stored in either orientation) on a five-coordinate "
+        "carbon under all 720 orders; the caller's array overwritten after Geometry(...) was built.  distinct = perceptions compared")
 ASSUMPTIONS = ["a finite grid of a continuum; VERIF_SEED selects the generic rotation / translation / noise vectors",
                "geometries failing the general-position guard are skipped and counted",
                "thresholds themselves (1.2 x radii, 1.0 A planarity) are out of scope by the property's text"]
@@ -38,6 +40,15 @@ def sources(tier):
         ns = NSPECT - len(els)
         sp = np.array([[40.0 + 9.0 * i, 35.0 + 2.5 * (i % 3), -30.0 - 1.5 * (i % 5)] for i in range(ns)])
         S["S:" + k] = (list(els) + ["He"] * ns, np.vstack([np.array(xyz, dtype=float), sp]))
+    # 48 well separated copies of (Z)- and (E)-CHF=CHF, 288 atoms: indices beyond 127 / 255 / 256 carry descriptors too
+    elsZ, xyzZ, _ = G.templates()["pb-Z-CHF=CHCl"]
+    elsE, xyzE, _ = G.templates()["pb-E-CHF=CHCl"]
+    bigels, bigxyz = [], []
+    for c in range(48):
+        shift = np.array([9.0 * (c % 8), 9.0 * (c // 8) + 0.37 * (c % 3), 1.3 * (c % 5)])
+        bigels += list(elsZ if c % 2 == 0 else elsE)
+        bigxyz.append(np.array(xyzZ if c % 2 == 0 else xyzE, dtype=float) + shift)
+    S["L:haloethene-x48"] = (bigels, np.vstack(bigxyz))
     for k, v in G.repo_xyz().items():
         S["F:" + k] = v
     for k, v in G.embedded((1,) if tier == "quick" else (1, 2, 3)).items():
@@ -50,6 +61,9 @@ NSPECT = 23   # prime: every multiplier 1..22 gives a permutation i -> (a + b*i)
 
 def perm_family(n, tier, name=""):
     ids = list(range(n))
+    if name.startswith("L:"):
+        return [tuple(ids), tuple(reversed(ids)), tuple(ids[100:] + ids[:100]), tuple(ids[257:] + ids[:257]), tuple(ids[1:] + ids[:1]),
+                tuple(ids[3::6] + ids[0::6] + ids[1::6] + ids[2::6] + ids[4::6] + ids[5::6])]
     if name.startswith("S:"):
         bs = (1, 2, 3, 5, 7, 11, 13, 22) if tier == "quick" else range(1, n)
         return [tuple((a + b * i) % n for i in ids) for b in bs for a in range(n)]
@@ -79,6 +93,8 @@ def items(tier, seed):
                 out.append({"src": name, "sigma": sig, "lo": lo, "hi": min(len(P), lo + step), "tier": tier, "seed": seed})
     for rname in ("conrot_reaction", "disrot_reaction", "fcb", "phosgenation", "sn2"):
         out.append({"reaction": rname, "tier": tier, "seed": seed})
+    for orient in (0, 1):
+        out.append({"custom_cutoff": orient, "tier": tier, "seed": seed})
     out.sort(key=lambda it: (len(sources(tier)[it["src"]][0]) if "src" in it else 99, it.get("lo", 0)))
     return out
 
@@ -159,6 +175,8 @@ def run_item(item):
     out = {"evals": 0, "distinct": 0, "outcomes": {}, "viol": [], "samples": []}
     if "reaction" in item:
         return _reaction(item, out)
+    if "custom_cutoff" in item:
+        return _custom_cutoff(item, out)
     oc = out["outcomes"]
     tier, seed = item["tier"], item["seed"]
     els, xyz0 = sources(tier)[item["src"]]
@@ -181,6 +199,23 @@ def run_item(item):
         V("base-raised:" + type(e).__name__, f"from_geometry raised {e!r}")
         return out
     m0 = U.from_real(g0)
+    if item["lo"] == 0:
+        # the caller's coordinate array is overwritten (reflected in place) after the Geometry was made: the Geometry must keep
+        # describing the shape it was built from
+        from stereomolgraph import StereoMolGraph
+        from stereomolgraph.coords import Geometry
+
+        arr = np.array(xyz, dtype=np.float64)
+        geo = Geometry(list(els), arr)
+        arr *= -1.0
+        out["evals"] += 1
+        try:
+            ma = U.from_real(StereoMolGraph.from_geometry(geo))
+            for clause, det in compare(m0, ma, False):
+                V("input-array-aliased:" + clause, "the caller's coordinate array was reflected in place after Geometry(...) was built and "
+                  f"the graph perceived from that Geometry changed: {clause} {det}", det, inp="alias")
+        except Exception as e:
+            V("input-array-aliased-raised:" + type(e).__name__, f"from_geometry raised {e!r}", inp="alias")
     bad = validity(g0, m0)
     if bad:
         V("invalid-descriptor:" + str(bad[0][0]), f"perceived descriptor does not name the centre and its bonded neighbours: {bad[:2]}",
@@ -295,4 +330,58 @@ def _reaction(item, out):
                                     "what": f"reaction graph from independently moved reactant/product/TS differs in {bad} (permutation {pi})",
                                     "item": item, "detail": None})
     out["samples"].append({"reaction": item["reaction"], "atoms": n, "base": U.describe(m0)})
+    return out
+
+
+def _custom_cutoff(item, out):
+    """a caller-supplied switching function whose C-Cl cut-off is raised to 2.7 A (stored in one orientation of the element pair):
+    [Cl...CH3-Cl] with the long contact at 2.45 A is then five-coordinate.  All 720 atom orders x two motions: the same graph
+    (bonds and descriptors) as in the base order, MolGraph and StereoMolGraph agree on the bonds, and the default function still
+    gives four-coordinate carbon."""
+    from stereomolgraph import MolGraph, StereoMolGraph
+    from stereomolgraph.coords import BondsFromDistance, Geometry
+
+    oc = out["outcomes"]
+    seed = item["seed"]
+    els = ["C", "H", "H", "H", "Cl", "Cl"]
+    xyz = np.array([[0.0, 0.0, 0.0], [1.03, 0.0, 0.18], [-0.515, 0.892, 0.18], [-0.515, -0.892, 0.18], [0.0, 0.0, -1.95], [0.0, 0.0, 2.45]])
+    xyz = xyz + G.noise(6, 0.02, seed)
+    key = (6, 17) if item["custom_cutoff"] == 0 else (17, 6)
+
+    def sf():
+        f = BondsFromDistance()
+        f.connectivity_cutoff[key] = 2.7
+        return f
+
+    def V(clause, what, inp=""):
+        out["viol"].append({"sig": f"C07/custom-cutoff/{clause}", "input": f"{key}|{inp}", "what": what + f" [override {key} -> 2.7 A]",
+                            "item": item, "detail": None})
+
+    g0 = StereoMolGraph.from_geometry(Geometry(els, xyz), sf())
+    m0 = U.from_real(g0)
+    if len(m0.nbrs(0)) != 5:
+        V("override-ignored", f"carbon has {len(m0.nbrs(0))} neighbours with the raised cut-off, expected 5")
+    gd = StereoMolGraph.from_geometry(Geometry(els, xyz))
+    if len(U.from_real(gd).nbrs(0)) != 4:
+        V("default-changed", "the default switching function no longer gives four-coordinate carbon (state leaked from the custom one)")
+    Q, t = G.generic_rotation(seed), G.translation(seed)
+    for pi in itertools.permutations(range(6)):
+        for label, R, tt, refl in (("generic", Q, t, False), ("refl", G.REFLECTIONS[0] @ Q, t, True)):
+            e1 = [els[j] for j in pi]
+            x1 = (xyz @ R.T + tt)[list(pi)]
+            out["evals"] += 1
+            out["distinct"] += 1
+            oc["custom-cutoff"] = oc.get("custom-cutoff", 0) + 1
+            try:
+                g1 = StereoMolGraph.from_geometry(Geometry(e1, x1), sf())
+                gm = MolGraph.from_geometry(Geometry(e1, x1), sf())
+            except Exception as e:
+                V("raised:" + type(e).__name__, f"from_geometry raised {e!r}", inp=f"{pi}|{label}")
+                continue
+            if {frozenset(b) for b in gm.bonds} != {frozenset(b) for b in g1.bonds}:
+                V("classes-disagree", f"MolGraph and StereoMolGraph.from_geometry give different bonds for atom order {pi}", inp=f"{pi}|{label}")
+            m1 = U.from_real(g1).relabel({j: pi[j] for j in range(6)})
+            for clause, det in compare(m0, m1, refl):
+                V("perm:" + clause, f"perception with the custom cut-off changed under atom permutation {pi} ({label}): {clause} {det}",
+                  inp=f"{pi}|{label}")
     return out
